@@ -812,6 +812,85 @@ class CfgLanguageWords:
         return None
 
 
+class AcceptsRejects:
+    """`check_dfa_accepts_rejects` / `check_cfg_accepts_rejects`: the answer (an automaton / grammar text) must accept every word of the first
+    list and none of the second"""
+    def __init__(self, kind):
+        self.kind = kind
+        self.name = kind + '_accepts_rejects'
+        self.may_raise = kind == 'dfa'        # the DFA variant has no try/except: a malformed answer raises instead of printing
+
+    def instance(self, rng):
+        if self.kind == 'dfa':
+            X = gen.random_dfa(rng, 4, rng.choice([['a', 'b'], ['a']]))
+            L = lang_of(enc.build_dfa(X), 3)
+            Sig = X['Sigma']
+        else:
+            c = CfgLanguageWords().instance(rng)
+            if c is None:
+                return None
+            X = c['G']
+            rules = [(l, [(a, b) for a, b in r]) for l, _, r in X['R']]
+            Sig = X['Sigma']
+            L = {w for w in gen.all_words(Sig, 3) if oracles.cfg_accepts(rules, X['S'], w)}
+        allw = gen.all_words(Sig, 3)
+        acc = rng.sample(sorted(L), min(len(L), rng.randint(0, 3)))
+        rej = rng.sample(sorted(set(allw) - L), min(len(set(allw) - L), rng.randint(0, 3)))
+        show = lambda ws: ' '.join(rng.choice(['ε', '_']) if w == '' else w for w in ws)
+        return {'X': X, 'accepted': show(acc), 'rejected': show(rej)}
+
+    def text(self, X):
+        return dfa_text(X) if self.kind == 'dfa' else simple_cfg_text(X)
+
+    def own(self, inst, sc):
+        return self.text(inst['X'])
+
+    def parse(self, text):
+        return try_parse(DA.parse_dfa if self.kind == 'dfa' else CA.parse_simple_cfg, text)
+
+    def mutants(self, rng, inst, own):
+        out = []
+        if self.kind == 'dfa':
+            for _ in range(3):
+                out.append(DA.print_dfa(enc.build_dfa(mutate_dfa_spec(rng, inst['X']), check=False)))
+            if len(inst['X']['Sigma']) > 1:      # an answer over a smaller alphabet: words with the missing symbol cannot be run
+                a = inst['X']['Sigma'][0]
+                out.append(dfa_text({'Q': ['q0'], 'Sigma': [a], 'delta': [['q0', a, 'q0']], 'q0': 'q0', 'F': ['q0']}))
+        else:
+            lines = own.split('\n')
+            if len(lines) > 1:
+                out.append('\n'.join(lines[:-1]))
+            for _ in range(2):
+                G2 = gen.random_cfg(rng, nvars=rng.randint(1, 3), maxlen=3)
+                if all(len(v) == 1 and v.isupper() for v in G2['V']) and G2['R'] and G2['R'][0][0] == G2['S']:
+                    out.append(simple_cfg_text(G2))
+        return out
+
+    def check(self, inst, ans):
+        f = NB.check_dfa_accepts_rejects if self.kind == 'dfa' else NB.check_cfg_accepts_rejects
+        return run_checker(f, ans, inst['accepted'], inst['rejected'])
+
+    def criterion(self, inst, ans):
+        A = self.parse(ans)
+        if A is None:
+            return False
+        ws = lambda t: ['' if w in ('ε', '_') else w for w in t.split()]
+        if self.kind == 'dfa':
+            acc = lambda w: all(c in A.Sigma for c in w) and oracles.dfa_accepts(A, w)
+        else:
+            s = enc.cfg_to_spec(A)
+            rules = [(l, [(a, b) for a, b in r]) for l, _, r in s['R']]
+            acc = lambda w: oracles.cfg_accepts(rules, s['S'], w)
+        return all(acc(w) for w in ws(inst['accepted'])) and not any(acc(w) for w in ws(inst['rejected']))
+
+    def lean(self, inst, ans):
+        return None
+
+    def text_lean(self, inst, ans):
+        return {'op': 'chk_text', 'name': self.kind + '_accepts_rejects', 'answer': ans, 'ref': '', 'accepted': inst['accepted'],
+                'rejected': inst['rejected']}
+
+
 class LanguageFile(LanguageWords):
     """`check_<kind>_language_from_file`: the reference automaton is read from a file; the answer is an automaton text.
     The checker is called twice on the same file, first with another length bound (a history that must not matter)."""
@@ -875,4 +954,4 @@ class LanguageFile(LanguageWords):
 
 ALL = [Product('union'), Product('intersection'), Product('symmetric_difference'), Complement(), Reverse(),
        Minimal('dfa_minimize'), Minimal('dfa_hopfcroft'), Nfa2Dfa(), Dfa2Regexp(), Cyk(), Derivation('leftmost'),
-       Derivation('rightmost'), Chomsky(1), Chomsky(2), Chomsky(3), Chomsky(4), Chomsky(5), LanguageWords('dfa'), LanguageWords('nfa'), LanguageFile('dfa'), LanguageFile('nfa'), CfgLanguageWords()]
+       Derivation('rightmost'), Chomsky(1), Chomsky(2), Chomsky(3), Chomsky(4), Chomsky(5), LanguageWords('dfa'), LanguageWords('nfa'), LanguageFile('dfa'), LanguageFile('nfa'), CfgLanguageWords(), AcceptsRejects('dfa'), AcceptsRejects('cfg')]
